@@ -1,5 +1,487 @@
+//! C13 — equivalent problems get equivalent answers (metamorphic pair monitors).
+
+use super::common::*;
 use crate::ctx::{Ctx, Meta};
+use crate::probe::*;
+use crate::problems::*;
 use crate::report::Report;
+use crate::rng::Rng;
+use crate::util::{bits_eq, bits_eq2, par_for, EPS};
+use ivp::prelude::*;
+use serde_json::{json, Value};
+
+/// z(s) = y(-s): z' = -f(-s, z)
+struct Reflected<'a>(&'a dyn Problem);
+impl<'a> Problem for Reflected<'a> {
+    fn dim(&self) -> usize {
+        self.0.dim()
+    }
+    fn f(&self, t: f64, y: &[f64], dy: &mut [f64]) {
+        self.0.f(-t, y, dy);
+        for v in dy.iter_mut() {
+            *v = -*v;
+        }
+    }
+    fn jac_dense(&self, t: f64, y: &[f64]) -> Option<Vec<Vec<f64>>> {
+        self.0.jac_dense(-t, y).map(|j| j.into_iter().map(|r| r.into_iter().map(|v| -v).collect()).collect())
+    }
+    fn describe(&self) -> Value {
+        json!({"reflected": self.0.describe()})
+    }
+}
+
+/// m independent identical copies, stored copy after copy
+struct Copies<'a>(&'a dyn Problem, usize);
+impl<'a> Problem for Copies<'a> {
+    fn dim(&self) -> usize {
+        self.0.dim() * self.1
+    }
+    fn f(&self, t: f64, y: &[f64], dy: &mut [f64]) {
+        let n = self.0.dim();
+        for c in 0..self.1 {
+            self.0.f(t, &y[c * n..(c + 1) * n], &mut dy[c * n..(c + 1) * n]);
+        }
+    }
+    fn jac_dense(&self, t: f64, y: &[f64]) -> Option<Vec<Vec<f64>>> {
+        let n = self.0.dim();
+        let mut j = vec![vec![0.0; n * self.1]; n * self.1];
+        for c in 0..self.1 {
+            let b = self.0.jac_dense(t, &y[c * n..(c + 1) * n])?;
+            for i in 0..n {
+                for k in 0..n {
+                    j[c * n + i][c * n + k] = b[i][k];
+                }
+            }
+        }
+        Some(j)
+    }
+    fn describe(&self) -> Value {
+        json!({"copies": self.1, "of": self.0.describe()})
+    }
+}
+
+fn reflect_event(e: &EvSpec) -> EvSpec {
+    let kind = match &e.kind {
+        EvKind::Time { c } => EvKind::Lin { a: vec![], bt: -1.0, c: *c }, // g = -s - c  (t = -s)
+        EvKind::Comp { k, c } => EvKind::Comp { k: *k, c: *c },
+        EvKind::Lin { a, bt, c } => EvKind::Lin { a: a.clone(), bt: -*bt, c: *c },
+        EvKind::Prod { i, j, c } => EvKind::Prod { i: *i, j: *j, c: *c },
+        EvKind::TwoRoots { c1, c2 } => EvKind::TwoRoots { c1: -*c1, c2: -*c2 },
+        EvKind::Sq { k, c } => EvKind::Sq { k: *k, c: *c },
+    };
+    EvSpec { kind, dir: e.dir, terminal: e.terminal }
+}
+
+fn first_diff_step(ta: &[f64], ya: &[Vec<f64>], tb: &[f64], yb: &[Vec<f64>], tmap: impl Fn(f64) -> f64, ymap: impl Fn(f64) -> f64) -> Option<usize> {
+    for k in 0..ta.len().min(tb.len()) {
+        if !crate::util::same_bits(tmap(ta[k]), tb[k]) || ya[k].iter().zip(&yb[k]).any(|(p, q)| !crate::util::same_bits(ymap(*p), *q)) {
+            return Some(k);
+        }
+    }
+    if ta.len() != tb.len() {
+        return Some(ta.len().min(tb.len()));
+    }
+    None
+}
+
 pub fn run(ctx: &Ctx) -> (Report, Meta) {
-    (Report::new(&ctx.prop), Meta::new("not built yet"))
+    let k_copy = 300.0;
+    let meta = Meta::new(
+        "pair monitors on generated problems (bounded benchmark problems and closed-form composites), 6 methods, both directions, tolerances, optional first_step/max_step/events: (1) time reflection z' = -f(-s,z): t' = -t and y' = y bitwise (explicit methods; implicit with user Jacobian; finite-difference Jacobian to rounding), event times mirror to root-finder accuracy; (2) scaling y0 and atol by 2^k, k in +-{1,7,40}, on linear homogeneous systems: times bitwise equal, states exactly scaled; (3) scalar tolerance vs constant vector: bitwise identical t, y, counters; (4) m in {2,4,8,16} identical copies: first reported interval identical to 1e-12, accepted/rejected counts equal (a difference of at most max(1, 2%) is an inconclusive tie), copies bitwise equal inside a run, each copy within the accuracy bound of the exact solution; non-trivial = pair with >= 3 accepted steps (distinct by scenario hash and relation)",
+    )
+    .assume("multiplication by 2^k and negation are exact in binary floating point (no overflow/underflow in the chosen ranges), so relations (1)-(3) are exact identities of the arithmetic actually executed")
+    .thresholds(json!({"copies_accuracy_factor": k_copy, "copies_first_interval_rel": 1e-12}))
+    .floor("reflection_pairs", 300)
+    .floor("scaling_pairs", 300)
+    .floor("scalar_vector_pairs", 300)
+    .floor("copies_pairs", 200)
+    .floor("reflection_pairs_with_events", 50);
+    let n = ctx.size(2_400, 100_000);
+    let g = GenOpts { allow_max_step: true, allow_first_step: true, bidirectional_problems: true, max_span: 20.0, ..Default::default() };
+    let rep = par_for(n, "C13", |i, rep| {
+        let case_id = format!("case/{}", i);
+        if !ctx.want(&case_id) {
+            return;
+        }
+        let mut rng = Rng::derive(ctx.seed, 13, i as u64);
+        let relation = i % 4;
+        let method = METHODS[(i / 4) % 6];
+        let m = mname(method);
+        let (simple, mut scn) = gen_case(&mut rng, &g);
+        scn.method = method;
+        scn.user_jac = is_implicit(method) && rng.chance(0.7);
+        let dirn = scn.dir();
+        if method == Method::RK4 {
+            scn.first_step = Some(dirn * (scn.xend - scn.x0).abs() / rng.range(10.0, 100.0));
+            scn.max_step = None;
+        } else if let Some(h) = scn.first_step {
+            scn.first_step = Some(dirn * h.abs());
+        }
+        let jm = if !is_implicit(method) { "explicit" } else if scn.user_jac { "user_jac" } else { "fd_jac" };
+        match relation {
+            // ---------------------------------------------------------------- reflection
+            0 => {
+                let comp = if rng.bool() { Some(random_composite(&mut rng, scn.x0, scn.xend, 3, 10.0).0) } else { None };
+                let prob: &dyn Problem = match &comp {
+                    Some(c) => {
+                        scn.y0 = c.y0();
+                        let (rt, at) = random_tols(&mut rng, method, c.dim());
+                        scn.rtol = rt;
+                        scn.atol = at;
+                        c
+                    }
+                    None => &simple,
+                };
+                let with_events = rng.chance(0.4);
+                if with_events {
+                    let ne = 1 + rng.below(2);
+                    for _ in 0..ne {
+                        scn.events.push(random_event(&mut rng, scn.y0.len(), scn.x0, scn.xend));
+                    }
+                }
+                scn.dense = rng.bool();
+                let refl = Reflected(prob);
+                let mut sr = scn.clone();
+                sr.x0 = -scn.x0;
+                sr.xend = -scn.xend;
+                sr.first_step = scn.first_step.map(|h| -h);
+                sr.events = scn.events.iter().map(reflect_event).collect();
+                // direction filters: the sign change along the integration is the same for g(t,y) and g'(s,z) = g(-s,z)
+                let ra = run_solve(prob, &scn, false, false);
+                let rb = run_solve(&refl, &sr, false, false);
+                rep.evals(2);
+                let mut case = scn.describe(prob);
+                case["relation"] = json!("time reflection");
+                let (a, b) = match (&ra.out, &rb.out) {
+                    (Outcome::Ok(a), Outcome::Ok(b)) => (a, b),
+                    (Outcome::Panic(msg), _) | (_, Outcome::Panic(msg)) => {
+                        rep.violate(&format!("C13/no_panic/{}/reflection", m), format!("panic: {}", msg), &case_id, case);
+                        return;
+                    }
+                    _ => {
+                        rep.inconclusive("run_not_ok");
+                        return;
+                    }
+                };
+                rep.count("reflection_pairs", 1);
+                if with_events {
+                    rep.count("reflection_pairs_with_events", 1);
+                }
+                if a.naccpt >= 3 {
+                    rep.nontrivial(scn_hash(&scn, prob));
+                }
+                let exact_expected = jm != "fd_jac";
+                let diff = first_diff_step(&a.t, &a.y, &b.t, &b.y, |t| -t, |y| y);
+                let counters_same = a.status == b.status && a.nfev == b.nfev && a.naccpt == b.naccpt && a.nrejct == b.nrejct && a.nstep == b.nstep && a.njev == b.njev;
+                if exact_expected {
+                    if diff.is_some() || !counters_same {
+                        case["first_differing_sample"] = json!(diff);
+                        if let Some(k) = diff {
+                            if k < a.t.len() && k < b.t.len() {
+                                case["differing_values"] = json!({"t": crate::util::jf(a.t[k]), "t_reflected": crate::util::jf(b.t[k]), "y": a.y[k].iter().map(|v| crate::util::jf(*v)).collect::<Vec<_>>(), "y_reflected": b.y[k].iter().map(|v| crate::util::jf(*v)).collect::<Vec<_>>()});
+                            }
+                        }
+                        case["counters"] = json!({"orig": [a.nfev, a.nstep, a.naccpt, a.nrejct], "reflected": [b.nfev, b.nstep, b.naccpt, b.nrejct], "status": [format!("{:?}", a.status), format!("{:?}", b.status)]});
+                        rep.violate(&format!("C13/reflection_bitwise/{}/{}", m, jm), format!("the reflected problem does not give the mirrored trajectory bit for bit (first differing sample {:?}, {} vs {} samples)", diff, a.t.len(), b.t.len()), &case_id, case.clone());
+                    }
+                } else {
+                    rep.count("reflection_fd_pairs", 1);
+                    if diff.is_some() {
+                        rep.count("reflection_fd_pairs_not_bitwise", 1);
+                    }
+                    // to rounding: same step counts and end states within tolerance scale
+                    if a.status != b.status {
+                        rep.violate(&format!("C13/reflection_to_rounding/{}/{}", m, jm), format!("status {:?} vs {:?} for the reflected problem", a.status, b.status), &case_id, case.clone());
+                    } else if let (Some(ya), Some(yb)) = (a.y.last(), b.y.last()) {
+                        for j in 0..ya.len() {
+                            let tol = scn.atol.at(j) + scn.rtol.at(j) * ya[j].abs();
+                            if (ya[j] - yb[j]).abs() > 10.0 * tol * (a.naccpt.max(1) as f64) {
+                                rep.violate(&format!("C13/reflection_to_rounding/{}/{}", m, jm), format!("end states differ by {:e} (tolerance scale {:e})", (ya[j] - yb[j]).abs(), tol), &case_id, case.clone());
+                                break;
+                            }
+                        }
+                    }
+                }
+                // events mirror
+                if with_events && a.t_events.len() == b.t_events.len() {
+                    for e in 0..a.t_events.len() {
+                        if a.t_events[e].len() != b.t_events[e].len() {
+                            if exact_expected {
+                                rep.violate(&format!("C13/reflection_events/{}/{}", m, jm), format!("function {}: {} events vs {} for the reflected problem", e, a.t_events[e].len(), b.t_events[e].len()), &case_id, case.clone());
+                            }
+                            continue;
+                        }
+                        for (p, q) in a.t_events[e].iter().zip(&b.t_events[e]) {
+                            let d = 2.0 * (4e-12 + 8.0 * EPS * p.abs());
+                            rep.count("mirrored_events_compared", 1);
+                            if exact_expected && (p + q).abs() > d {
+                                rep.violate(&format!("C13/reflection_events/{}/{}", m, jm), format!("event at {:e} is mirrored to {:e} (|sum| = {:e} > {:e})", p, q, (p + q).abs(), d), &case_id, case.clone());
+                                break;
+                            }
+                        }
+                    }
+                }
+            }
+            // ---------------------------------------------------------------- scaling by 2^k
+            1 => {
+                let nb = 1 + rng.below(3);
+                let mut bases = Vec::new();
+                for _ in 0..nb {
+                    if rng.bool() {
+                        bases.push(Base::Lin1 { lam: -dirn * rng.range(0.0, 1.5), u0: rng.sign() * rng.range(0.3, 2.0) });
+                    } else {
+                        bases.push(Base::Rot { a: -dirn * rng.range(0.0, 0.4), w: rng.range(0.3, 4.0), u0: [rng.range(-1.0, 1.0), rng.range(0.3, 1.5)] });
+                    }
+                }
+                let nn: usize = bases.iter().map(|b| b.dim()).sum();
+                let mix = if nn >= 2 && rng.bool() { Some(Mix::random(nn, &mut rng)) } else { None };
+                let warp = match rng.below(3) {
+                    0 => Warp::Id,
+                    1 => Warp::Sin { a: rng.range(-0.5, 0.5), b: rng.range(0.5, 2.0) },
+                    _ => Warp::Exp { a: rng.range(-0.1, 0.1) + 0.011 },
+                };
+                let c = Composite::new(bases, warp, mix, scn.x0);
+                scn.y0 = c.y0();
+                let rt = rng.logu(1e-9, 1e-3);
+                let at = rt * rng.logu(1e-3, 1.0);
+                scn.rtol = Tol::S(rt);
+                scn.atol = if rng.bool() { Tol::S(at) } else { Tol::V((0..nn).map(|_| at * rng.range(0.5, 2.0)).collect()) };
+                scn.events.clear();
+                let k = *rng.pick(&[1i32, -1, 7, -7, 40, -40]);
+                let f2 = (2.0f64).powi(k);
+                let mut ss = scn.clone();
+                ss.y0 = scn.y0.iter().map(|v| v * f2).collect();
+                ss.atol = match &scn.atol {
+                    Tol::S(a) => Tol::S(a * f2),
+                    Tol::V(v) => Tol::V(v.iter().map(|a| a * f2).collect()),
+                };
+                let ra = run_solve(&c, &scn, false, false);
+                let rb = run_solve(&c, &ss, false, false);
+                rep.evals(2);
+                let mut case = scn.describe(&c);
+                case["relation"] = json!(format!("state and atol scaled by 2^{}", k));
+                let (a, b) = match (&ra.out, &rb.out) {
+                    (Outcome::Ok(a), Outcome::Ok(b)) => (a, b),
+                    (Outcome::Panic(msg), _) | (_, Outcome::Panic(msg)) => {
+                        rep.violate(&format!("C13/no_panic/{}/scaling", m), format!("panic: {}", msg), &case_id, case);
+                        return;
+                    }
+                    _ => {
+                        rep.inconclusive("run_not_ok");
+                        return;
+                    }
+                };
+                rep.count("scaling_pairs", 1);
+                if a.naccpt >= 3 {
+                    rep.nontrivial(scn_hash(&scn, &c) ^ 0x1111);
+                }
+                if jm == "fd_jac" {
+                    // the finite-difference increment is not scale invariant: to rounding only
+                    rep.count("scaling_fd_pairs", 1);
+                    if a.status != b.status {
+                        rep.violate(&format!("C13/scaling_to_rounding/{}/{}", m, jm), format!("status {:?} vs {:?}", a.status, b.status), &case_id, case);
+                    }
+                    return;
+                }
+                let diff = first_diff_step(&a.t, &a.y, &b.t, &b.y, |t| t, |y| y * f2);
+                if diff.is_some() || a.status != b.status || a.nfev != b.nfev || a.naccpt != b.naccpt || a.nrejct != b.nrejct {
+                    case["first_differing_sample"] = json!(diff);
+                    case["counters"] = json!({"orig": [a.nfev, a.nstep, a.naccpt, a.nrejct], "scaled": [b.nfev, b.nstep, b.naccpt, b.nrejct]});
+                    rep.violate(&format!("C13/scaling_bitwise/{}/{}_k{}", m, jm, if k.abs() >= 30 { "huge" } else { "moderate" }), format!("scaling the state and atol by 2^{} does not scale the trajectory exactly (first differing sample {:?})", k, diff), &case_id, case);
+                }
+            }
+            // ---------------------------------------------------------------- scalar vs vector tolerance
+            2 => {
+                let comp = if rng.bool() { Some(random_composite(&mut rng, scn.x0, scn.xend, 4, 10.0).0) } else { None };
+                let prob: &dyn Problem = match &comp {
+                    Some(c) => {
+                        scn.y0 = c.y0();
+                        c
+                    }
+                    None => &simple,
+                };
+                let nn = scn.y0.len();
+                let rt = rng.logu(1e-9, 1e-3);
+                let at = rt * rng.logu(1e-3, 1.0);
+                scn.rtol = Tol::S(rt);
+                scn.atol = Tol::S(at);
+                let mut sv = scn.clone();
+                match rng.below(3) {
+                    0 => {
+                        sv.rtol = Tol::V(vec![rt; nn]);
+                        sv.atol = Tol::V(vec![at; nn]);
+                    }
+                    1 => sv.rtol = Tol::V(vec![rt; nn]),
+                    _ => sv.atol = Tol::V(vec![at; nn]),
+                }
+                let ra = run_solve(prob, &scn, false, false);
+                let rb = run_solve(prob, &sv, false, false);
+                rep.evals(2);
+                let mut case = sv.describe(prob);
+                case["relation"] = json!("scalar tolerance vs constant vector");
+                let (a, b) = match (&ra.out, &rb.out) {
+                    (Outcome::Ok(a), Outcome::Ok(b)) => (a, b),
+                    (Outcome::Panic(msg), _) | (_, Outcome::Panic(msg)) => {
+                        rep.violate(&format!("C13/no_panic/{}/scalar_vector", m), format!("panic: {}", msg), &case_id, case);
+                        return;
+                    }
+                    _ => {
+                        rep.inconclusive("run_not_ok");
+                        return;
+                    }
+                };
+                rep.count("scalar_vector_pairs", 1);
+                if a.naccpt >= 3 {
+                    rep.nontrivial(scn_hash(&sv, prob) ^ 0x2222);
+                }
+                let shape = match (&sv.rtol, &sv.atol) {
+                    (Tol::V(_), Tol::V(_)) => "both_vector",
+                    (Tol::V(_), _) => "rtol_vector",
+                    _ => "atol_vector",
+                };
+                if !bits_eq(&a.t, &b.t) || !bits_eq2(&a.y, &b.y) || a.status != b.status || a.nfev != b.nfev || a.naccpt != b.naccpt || a.nrejct != b.nrejct || a.njev != b.njev {
+                    case["counters"] = json!({"scalar": [a.nfev, a.nstep, a.naccpt, a.nrejct], "vector": [b.nfev, b.nstep, b.naccpt, b.nrejct]});
+                    rep.violate(&format!("C13/scalar_vs_vector_tolerance/{}/{}_dim{}", m, shape, if nn == 1 { "1" } else { "gt1" }), format!("a scalar tolerance and the equivalent constant vector give different trajectories ({} vs {} accepted steps)", a.naccpt, b.naccpt), &case_id, case);
+                }
+            }
+            // ---------------------------------------------------------------- identical copies
+            _ => {
+                let (c, amp) = random_composite(&mut rng, scn.x0, scn.xend, 2, 8.0);
+                scn.y0 = c.y0();
+                let (rt, at) = random_tols(&mut rng, method, c.dim());
+                scn.rtol = rt;
+                scn.atol = at;
+                scn.events.clear();
+                if method != Method::RK4 && rng.chance(0.5) {
+                    scn.first_step = None;
+                }
+                let mcopies = *rng.pick(&[2usize, 4, 8, 16]);
+                let cp = Copies(&c, mcopies);
+                let mut sc = scn.clone();
+                sc.y0 = (0..mcopies).flat_map(|_| scn.y0.clone()).collect();
+                let rep_tol = |t: &Tol| match t {
+                    Tol::S(v) => Tol::S(*v),
+                    Tol::V(v) => Tol::V((0..mcopies).flat_map(|_| v.clone()).collect()),
+                };
+                sc.rtol = rep_tol(&scn.rtol);
+                sc.atol = rep_tol(&scn.atol);
+                let ra = run_solve(&c, &scn, false, false);
+                let rb = run_solve(&cp, &sc, false, false);
+                rep.evals(2);
+                let mut case = scn.describe(&c);
+                case["relation"] = json!(format!("{} identical copies", mcopies));
+                let (a, b) = match (&ra.out, &rb.out) {
+                    (Outcome::Ok(a), Outcome::Ok(b)) => (a, b),
+                    (Outcome::Panic(msg), _) | (_, Outcome::Panic(msg)) => {
+                        rep.violate(&format!("C13/no_panic/{}/copies", m), format!("panic: {}", msg), &case_id, case);
+                        return;
+                    }
+                    _ => {
+                        rep.inconclusive("run_not_ok");
+                        return;
+                    }
+                };
+                if a.status != Status::Success || b.status != Status::Success || a.t.len() < 2 || b.t.len() < 2 {
+                    if a.status != b.status {
+                        rep.violate(&format!("C13/copies_status/{}/{}", m, jm), format!("single problem: {:?}, {} copies: {:?}", a.status, mcopies, b.status), &case_id, case);
+                    } else {
+                        rep.inconclusive("copies_runs_not_successful");
+                    }
+                    return;
+                }
+                rep.count("copies_pairs", 1);
+                if a.naccpt >= 3 {
+                    rep.nontrivial(scn_hash(&scn, &c) ^ 0x3333 ^ mcopies as u64);
+                }
+                let nn = c.dim();
+                let auto = if scn.first_step.is_none() { "auto_first_step" } else { "given_first_step" };
+                // (a) first reported interval
+                let h1a = a.t[1] - a.t[0];
+                let h1b = b.t[1] - b.t[0];
+                if (h1a - h1b).abs() > 1e-12 * h1a.abs() {
+                    case["first_intervals"] = json!([h1a, h1b]);
+                    rep.violate(&format!("C13/copies_first_interval/{}/{}", m, auto), format!("first reported interval {:e} for one system but {:e} for {} copies", h1a, h1b, mcopies), &case_id, case.clone());
+                    return;
+                }
+                // (c1) copies identical inside the run
+                for yk in &b.y {
+                    for cidx in 1..mcopies {
+                        if !bits_eq(&yk[..nn], &yk[cidx * nn..(cidx + 1) * nn]) {
+                            rep.violate(&format!("C13/copies_identical_inside_run/{}/{}", m, auto), format!("copy {} differs from copy 0 inside one run", cidx), &case_id, case.clone());
+                            return;
+                        }
+                    }
+                }
+                // (b) step counts
+                let da = (a.naccpt as i64 - b.naccpt as i64).abs();
+                let dr = (a.nrejct as i64 - b.nrejct as i64).abs();
+                let allow = 1.max((0.02 * a.naccpt as f64).ceil() as i64);
+                rep.worst("copies_accepted_count_difference_rel", da as f64 / a.naccpt.max(1) as f64);
+                if da == 0 && dr == 0 {
+                    rep.count("copies_pairs_with_equal_counts", 1);
+                } else if da <= allow && dr <= allow.max(2) {
+                    rep.inconclusive("copies_step_count_tie");
+                } else {
+                    case["counters"] = json!({"single": [a.naccpt, a.nrejct], "copies": [b.naccpt, b.nrejct]});
+                    rep.violate(&format!("C13/copies_step_counts/{}/{}", m, auto), format!("{} / {} accepted / rejected steps for one system but {} / {} for {} copies", a.naccpt, a.nrejct, b.naccpt, b.nrejct, mcopies), &case_id, case.clone());
+                }
+                // (c2) each copy accurate
+                if method != Method::RK4 {
+                    for (k, &t) in b.t.iter().enumerate() {
+                        let ex = c.exact(t).unwrap();
+                        for j in 0..nn {
+                            let tol = scn.atol.at(j) + scn.rtol.at(j) * ex[j].abs();
+                            let ratio = (b.y[k][j] - ex[j]).abs() / (amp * (b.naccpt.max(1) as f64) * tol);
+                            rep.worst(&format!("copies_err_over_naccpt_tol_{}", m), ratio);
+                            if ratio > k_copy {
+                                rep.violate(&format!("C13/copies_accuracy/{}/{}", m, auto), format!("copy solution at t = {:e} has error {:.0} x naccpt x tol", t, ratio), &case_id, case.clone());
+                                return;
+                            }
+                        }
+                    }
+                }
+            }
+        }
+        if i % 601 == 0 {
+            let rel_name = ["reflection", "scaling", "scalar_vs_vector", "copies"][relation];
+            rep.sample(json!({"relation": rel_name, "scenario_method": m, "x0": scn.x0, "xend": scn.xend}));
+        }
+    });
+    (rep, meta)
+}
+
+#[allow(dead_code)]
+pub fn debug_reflect() {
+    use crate::problems::*;
+    let bases = vec![
+        Base::PR { lam: -19.255343379143415, om: 1.7770489660129283, u0: -0.8993629662298237 },
+    ];
+    let c = Composite::new(bases, Warp::Id, None, 0.001);
+    let mut scn = Scn::new(Method::RK4, 0.001, 8.345018515978568, c.y0());
+    scn.first_step = Some(0.18888601365172833);
+    let refl = Reflected(&c);
+    let mut sr = scn.clone();
+    sr.x0 = -scn.x0;
+    sr.xend = -scn.xend;
+    sr.first_step = scn.first_step.map(|h| -h);
+    let a = run_solve(&c, &scn, true, true);
+    let b = run_solve(&refl, &sr, true, true);
+    let (sa, sb) = (a.out.sol().unwrap(), b.out.sol().unwrap());
+    for k in 0..sa.t.len() {
+        if sa.t[k] != -sb.t[k] || sa.y[k] != sb.y[k] {
+            println!("sample {} t {:e} {:e} y {:?} {:?}", k, sa.t[k], sb.t[k], sa.y[k], sb.y[k]);
+            break;
+        }
+    }
+    for k in 0..a.log.calls.len() {
+        if a.log.calls[k].t != -b.log.calls[k].t || a.log.ys[k] != b.log.ys[k] {
+            println!("call {} t {:e} {:e} y {:?} {:?}", k, a.log.calls[k].t, b.log.calls[k].t, a.log.ys[k], b.log.ys[k]);
+            let mut d1 = vec![0.0];
+            let mut d2 = vec![0.0];
+            c.f(a.log.calls[k - 1].t, &a.log.ys[k - 1], &mut d1);
+            refl.f(b.log.calls[k - 1].t, &b.log.ys[k - 1], &mut d2);
+            println!("prev call f: {:?} {:?}  t {:e} {:e}", d1, d2, a.log.calls[k - 1].t, b.log.calls[k - 1].t);
+            break;
+        }
+    }
 }
